@@ -205,6 +205,8 @@ def units(tier):
     from props.common import wrap as _wrap
     _wrap(us, "C14.copy_use.save_range_is_exactly_the_scratch_number", CU.unit_copy_use)
     _wrap(us, "C14.saver.writes_exactly_the_save_range", CU.unit_saver)
+    from props import c14_merge as MG
+    _wrap(us, "C14.merge_redox.removes_exactly_the_conflicting_entries", MG.unit_merge_redox, "C14")
     from props import c14_components as CC
     _wrap(us, "C14.list_components.every_defined_reactant_contributes", CC.unit_list_components)
     return us
